@@ -473,6 +473,8 @@ def reset_globals():
     try:
         import txtorcon.endpoints as e
         e._global_tor = None
+        from twisted.internet import defer as _d
+        e._global_tor_lock = _d.DeferredLock()      # a launch left pending by the previous execution holds the old one
     except Exception:
         pass
 
